@@ -116,6 +116,33 @@ def check(ctx):
                full_ok and base_ok and not bad, node=n,
                message='the subject matched is %s (full-path/basename selection by the '
                        'leading "/" of the pattern is gone or altered)' % short(subject, 140))
+    # ---- R12.6 the pattern decides nothing but the match: every test that mentions it is
+    # the matcher's verdict or the full-path/basename selection
+    pat_ids = set()
+    for n, x, pol in matches:
+        if len(x.args) == 2:
+            pat_ids |= alt_ids(x.args[1])
+    seen6 = set()
+    for n in b.nodes('assume'):
+        c, pol = unwrap_not(n.data['cond'], n.data['pol'])
+        if not contains(c, lambda y: cid(y) in pat_ids):
+            continue
+        if contains(c, lambda y: isinstance(y, Call) and y.fn.startswith('fnmatch.')):
+            continue
+        if (n.file, n.line) in seen6:
+            continue
+        seen6.add((n.file, n.line))
+        c0 = strip(c)
+        sel = (isinstance(c0, Cmp) and c0.op in ('==', '!=') and
+               is_const(strip(c0.right), '/') and isinstance(strip(c0.left), Sub) and
+               alt_ids(strip(c0.left).base) <= pat_ids) or \
+            (isinstance(c0, MCall) and c0.name == 'startswith' and len(c0.args) == 1 and
+             is_const(strip(c0.args[0]), '/') and alt_ids(c0.recv) <= pat_ids)
+        ctx.ob('R12.6', 'the pattern is only used to match (and to choose full path or '
+                        'basename)', sel, node=n,
+               message='%s decides on the pattern outside the matcher: entries that match '
+                       'can be left out (e.g. a wildcard in the directory part of an '
+                       'absolute pattern)' % short(c0, 100))
     true_nodes = [(n, x) for n, x, pol in matches if pol]
     for d in deletes:
         kinds, infos = classify(d.data['roles']['path'])
